@@ -37,6 +37,7 @@ type WinScenario struct {
 	Cfg   WinCfg    `json:"cfg"`
 	Steps []WinStep `json:"steps"`
 	Free  bool      `json:"free"` // free-running: no gates, adds only, quiesce at the end
+	Burst bool      `json:"burst"` // free-running with the trigger goroutine held at its gate until every row is in (producer faster than trigger)
 	Flush bool      `json:"flush"`
 }
 
@@ -164,6 +165,8 @@ func runWin(sc WinScenario) (evs []Ev, inconclusive string) {
 	var gates []string
 	if !sc.Free {
 		gates = []string{p + ".trig", p + ".fired"}
+	} else if sc.Burst {
+		gates = []string{p + ".trig"}
 	}
 	in := NewInst(gates...)
 	in.LogHooks = false
@@ -221,7 +224,7 @@ func runWin(sc WinScenario) (evs []Ev, inconclusive string) {
 			if !in.WaitFor(T, func() bool { return in.C("proc.item") >= n }) {
 				return in.Events(), "add not processed"
 			}
-			if !in.WaitFor(T, delivered) { // late updates are sent from inside Add
+			if !sc.Burst && !in.WaitFor(T, delivered) { // late updates are sent from inside Add
 				return in.Events(), "late update not consumed"
 			}
 		case "trig":
@@ -255,6 +258,12 @@ func runWin(sc WinScenario) (evs []Ev, inconclusive string) {
 				return in.Events(), "delivery not consumed"
 			}
 		}
+	}
+	if sc.Burst {
+		// let the stalled trigger goroutine go and give the watermark ticker (200ms) time to re-send a watermark
+		// that did not fit into the full channel
+		in.Disarm()
+		time.Sleep(650 * time.Millisecond)
 	}
 	if sc.Free {
 		// quiescence: all rows ingested, every sent watermark processed, all batches consumed
